@@ -121,6 +121,7 @@ where
                         cases,
                         failure_persistence: None,
                         max_shrink_iters: 4096,
+                        max_shrink_time: 120_000,
                         max_global_rejects: 1 << 20,
                         ..Config::default()
                     };
